@@ -64,6 +64,9 @@ func (c *Commitment[C]) UnmarshalCBOR(data []byte) error {
 	if err != nil {
 		return errs.Wrap(err).WithMessage("failed to unmarshal commitment")
 	}
+	if dto == nil {
+		return commitments.ErrIsNil.WithMessage("Commitment DTO is nil")
+	}
 	cc, err := NewCommitment(dto.C)
 	if err != nil {
 		return errs.Wrap(err).WithMessage("invalid commitment value in unmarshalled data")
@@ -112,6 +115,9 @@ func (w *Witness[N]) UnmarshalCBOR(data []byte) error {
 	if err != nil {
 		return errs.Wrap(err).WithMessage("failed to unmarshal witness")
 	}
+	if dto == nil {
+		return commitments.ErrIsNil.WithMessage("Witness DTO is nil")
+	}
 	ww, err := NewWitness(dto.S)
 	if err != nil {
 		return errs.Wrap(err).WithMessage("invalid witness value in unmarshalled data")
@@ -157,6 +163,9 @@ func (m *Message[P]) UnmarshalCBOR(data []byte) error {
 	dto, err := serde.UnmarshalCBOR[*messageDTO[P]](data)
 	if err != nil {
 		return errs.Wrap(err).WithMessage("failed to unmarshal message")
+	}
+	if dto == nil {
+		return commitments.ErrIsNil.WithMessage("Message DTO is nil")
 	}
 	mm, err := NewMessage(dto.M)
 	if err != nil {
